@@ -82,7 +82,7 @@ static long opt_maxstates = 24L<<20;
 static long opt_maxexecs = 0;
 int mc_opt_binsem __attribute__((weak)) = 0;
 
-static int64_t now_ns;
+static int64_t now_ns __attribute__((aligned(8)));
 static int fault_mask;
 #define MAXINST 16
 static int64_t instants[MAXINST]; static int ninst;
@@ -241,7 +241,6 @@ int mc_addr_live (const void *p, size_t n) {
 /* ------------------------------------------------------------------ */
 /* delta maps: the content-based spin-park rule (DESIGN 3.2)          */
 
-static uint64_t clockword;
 static void dm_note (uintptr_t addr, size_t n) {  /* call BEFORE the write */
 	for (uintptr_t w = addr & ~7UL; w < addr + n; w += 8)
 		for (int t = 0; t < nfib; t++) {
@@ -643,9 +642,18 @@ void nsync_yield_ (void) {
 void *nsync_per_thread_waiter_ (void (*dest) (void *)) { (void)dest; return cur >= 0 ? F[cur].tls_waiter : NULL; }
 void nsync_set_per_thread_waiter_ (void *v, void (*dest) (void *)) { if (cur >= 0) { F[cur].tls_waiter = v; F[cur].dest = dest; } }
 
-int mc_clock_gettime (int c, struct timespec *ts) { (void)c; ts->tv_sec = now_ns / MC_NS; ts->tv_nsec = now_ns % MC_NS; return 0; }
+/* A spin iteration that read the clock depends on it: the clock word joins the reader's delta map
+   (a tick then un-parks it).  Iterations that never look at the clock are not disturbed by ticks. */
+static void dm_depends_on_clock (void) {
+	if (cur < 0) return;
+	struct dmap *m = &F[cur].dm; int k;
+	if (!m->active || m->overflow) return;
+	for (k = 0; k < m->n; k++) if (m->a[k] == (uintptr_t)&now_ns) return;
+	if (m->n < DM) { m->a[m->n] = (uintptr_t)&now_ns; m->old[m->n] = (uint64_t)now_ns; m->n++; } else m->overflow = 1;
+}
+int mc_clock_gettime (int c, struct timespec *ts) { (void)c; dm_depends_on_clock (); ts->tv_sec = now_ns / MC_NS; ts->tv_nsec = now_ns % MC_NS; return 0; }
 /* std::chrono::system_clock::now() for the C++ build */
-int64_t _ZNSt6chrono3_V212system_clock3nowEv (void) { return now_ns; }
+int64_t _ZNSt6chrono3_V212system_clock3nowEv (void) { dm_depends_on_clock (); return now_ns; }
 int mc_nanosleep (const struct timespec *req, struct timespec *rem) {
 	if (cur < 0) return 0;
 	int me = cur;
@@ -912,12 +920,11 @@ static int run_execution (void) {
 		/* cost of this choice */
 		if (c < nthr) { if (c > 0 && pre && boundP < 99) usedP++; }
 		else if (has_tick && c == nthr) { usedE += tickcost; }
-		else if (opts[c] >= OPT_FAULT) usedE++;
+		else if (opts[c] >= OPT_FAULT && opts[c] < OPT_QUIESCE + 1000) usedE++;
 		depth++;
 		int o = opts[c];
 		if (o == OPT_END) break;
 		if (o == OPT_TICK) {
-			dm_note ((uintptr_t)&clockword, 8); clockword++;
 			now_ns = ni;
 			if (opt_verbose) printf ("[%d] tick: clock -> T0+%lld ns%s\n", depth - 1, (long long)(now_ns - MC_T0), tickcost ? " (costs E)" : "");
 		} else if (o >= OPT_FAULT && o < OPT_QUIESCE + 1000) {
